@@ -368,8 +368,8 @@ theorem mod_core (pts : List Rat) (a b : Rat) (h3 : 3 ≤ pts.length) (hs : pts.
       have : x1 < x2 := by simp [List.pairwise_cons] at hs; exact hs.2.1.1
       intro h; linarith
     have h21 : x1 - x2 ≠ 0 := by intro h; apply h12; linarith
-    have hsum : sumR (dropEnds [0, -1 * ((b * b / 2 - b * x1 - a * a / 2 + a * x1) / (x2 - x1)) + b - a,
-        (b * b / 2 - b * x1 - a * a / 2 + a * x1) / (x2 - x1), 0]) = b - a := by
+    have hsum : sumR (dropEnds [0, -1 * ((b - a) * ((a + b) / 2 - x1) / (x2 - x1)) + b - a,
+        (b - a) * ((a + b) / 2 - x1) / (x2 - x1), 0]) = b - a := by
       simp [sumR, dropEnds]; ring
     refine ⟨_, ?_, by simp, hsum, ?_⟩
     · simp only [computeWeights, if_true, computeWeightsMod, if_neg h12, sumAssertOk_of_sum a b _ hab hsum]
